@@ -73,6 +73,10 @@ class MuEngine(Engine):
         Engine.__init__(self, mod, [self.muc, self.cvc], opaque=op, tracked_fields=('waiter.l_type',), inline_filter=self._inline, **kw)
         self.wrappers = util.cas_wrappers(mod)
         self.opaque['nsync_waiter_new_'] = self._waiter_new
+        # the outcome of a timed / cancellable sleep is one of a few codes: as a symbolic value it can be refined by `!= 0` tests and copied
+        # into other variables (outcome = sem_outcome) without losing what the path already knows about it
+        self.opaque['nsync_sem_wait_with_cancel_'] = self._sleep_outcome
+        self.opaque['nsync_mu_semaphore_p_with_deadline'] = self._sleep_outcome
         self._relevant = self._compute_relevant()
         self._small = {}
         self.no_memo = set(self.wrappers)
@@ -303,6 +307,16 @@ class MuEngine(Engine):
                 if isinstance(k, tuple) and k[:2] == ('flag', 'released') and k[2].base == p.base and p.path[:len(k[2].path)] == k[2].path:
                     self.record(Record('late_access', inst, st, ptr=p, access=kind, entry=self.entry_name, instance=k[2]),
                                 ('late', inst.fn.name, inst.id, st.stack()))
+
+    @staticmethod
+    def _sleep_outcome(eng, st, f, inst, args):
+        codes = [0, eng.K['ETIMEDOUT']] + ([eng.K['ECANCELED']] if inst.callee == 'nsync_sem_wait_with_cancel_' else [])
+        sym = 'sleep:%s:%s:%d' % (f.fn.name, inst.id, f.depth)
+        eng.kill_sym(st, sym)
+        st.S[sym] = frozenset(codes)
+        f.regs[inst.id] = ('e', sym, ('s',))
+        f.idx += 1
+        return [st]
 
     @staticmethod
     def _waiter_new(eng, st, f, inst, args):
